@@ -369,7 +369,46 @@ Section WithCrc.
               l_map := nm_set (l_map L) (id n) {| nv_off := off / 8; nv_size := Z.of_N (body_size n) |};
               l_nwod := false |}, WOk)
         else ({| l_dat := d'; l_idx := l_idx L; l_map := l_map L; l_nwod := false |}, WOk).
+
+  (* Store.DeleteVolumeNeedle: the read-only guard, then doDeleteRequest: a live key gets a
+     tombstone record appended (Data = nil) and NeedleMap.Delete negates the size in the map and
+     appends the deletion entry to the index; the answer is (read only?, the size that was mapped) *)
+  Definition l_delete (L : lstate) (k c ts : N) : lstate * (bool * Z) :=
+    if l_nwod L then (L, (true, 0%Z))
+    else match nm_get (l_map L) k with
+         | Some nv =>
+             if size_valid (nv_size nv)
+             then ({| l_dat := d_append (l_dat L) (encode Ver (tombstone k c ts));
+                      l_idx := l_idx L ++ [entry_of (d_fsize (l_dat L)) {| a_n := tombstone k c ts; a_tomb := true |}];
+                      l_map := nm_delete (l_map L) k; l_nwod := false |}, (false, nv_size nv))
+             else (L, (false, 0%Z))
+         | None => (L, (false, 0%Z))
+         end.
+
+  (* what an operation answers *)
+  Inductive ores := RW (w : wres) | RD (ro : bool) (sz : Z).
+
+  Definition l_step (L : lstate) (o : op) : lstate * ores :=
+    match o with
+    | Write n => let '(L', w) := l_write L n in (L', RW w)
+    | Delete k c ts => let '(L', (ro, sz)) := l_delete L k c ts in (L', RD ro sz)
+    end.
+
+  (* the reopened volume after further operations *)
+  Definition l_after (L : lstate) (h : list op) : lstate := fold_left (fun L o => fst (l_step L o)) h L.
 End WithCrc.
+
+(* what the RUNNING volume answers to an operation (record level) *)
+Definition p_res (st : pstate) (o : op) : ores :=
+  match o with
+  | Write n => if p_unchanged st n then RW WUnchanged
+               else if negb (p_cookie_ok st n) then RW WOther else RW WOk
+  | Delete k _ _ =>
+      match nm_get (p_map st) k with
+      | Some nv => if size_valid (nv_size nv) then RD false (nv_size nv) else RD false 0%Z
+      | None => RD false 0%Z
+      end
+  end.
 
 (* what readNeedle answers on the RUNNING volume, on the record level (the mapped record is in
    the file and decodes to itself; that is C01/C02's subject): the yardstick for a reopened one *)
@@ -431,6 +470,35 @@ Definition s_read (m : smap) (k : N) : rres :=
   | Some v => match s_live v with Some n => ROk (dview Ver n) | None => RDeleted end
   end.
 
+(* the answer of the specification to an operation: (code, size) with code 0 = done, 1 = unchanged,
+   3 = refused (the key exists with another cookie); a delete answers the Size of the record it
+   deleted (0 when there was nothing to delete) *)
+Definition s_res (m : smap) (o : op) : N * Z :=
+  match o with
+  | Write n =>
+      match s_get m (id n) with
+      | Some v =>
+          if negb (s_cookie v =? cookie n) then (3, 0%Z)
+          else match s_live v with
+               | Some n0 => if bytes_eqb (data n0) (data n) then (1, 0%Z) else (0, 0%Z)
+               | None => (0, 0%Z)
+               end
+      | None => (0, 0%Z)
+      end
+  | Delete k _ _ =>
+      match s_get m k with
+      | Some v => match s_live v with Some n0 => (0, Z.of_N (body_size n0)) | None => (0, 0%Z) end
+      | None => (0, 0%Z)
+      end
+  end.
+
+(* the specification after the longest prefix of [ops] that appends at most [lim] records in all *)
+Fixpoint s_upto (st : smap * N) (ops : list op) (lim : N) : smap * N :=
+  match ops with
+  | [] => st
+  | o :: ops' => let st' := s_step st o in if snd st' <=? lim then s_upto st' ops' lim else st
+  end.
+
 (* ---------- what the correspondence check observes for one crash point ---------- *)
 (* projection of a read: class, cookie, data *)
 Definition rres_proj (r : rres) : N * N * list N :=
@@ -445,30 +513,66 @@ Definition rres_proj (r : rres) : N * N * list N :=
 Definition wres_code (w : wres) : N :=
   match w with WOk => 0 | WUnchanged => 1 | WReadOnly => 2 | WOther => 3 end.
 
+(* the two files cut anywhere: [dcut] bytes of the data file and [icut] bytes of the index ([crash]
+   is this on the files of a running volume) *)
+Definition cut_files (dat : list N) (idx : list entry) (dcut icut : N) : files :=
+  {| f_dat := takeN dcut dat;
+     f_idx := takeN (icut / NeedleMapEntrySize) idx;
+     f_torn := if icut / NeedleMapEntrySize <? len idx then icut mod NeedleMapEntrySize else 0 |}.
+
+Definition ores_code (r : ores) : N * Z :=
+  match r with
+  | RW w => (wres_code w, 0%Z)
+  | RD ro sz => (if ro then 2 else 0, sz)
+  end.
+
+(* the operations [h] on a reopened volume, with their answers *)
+Fixpoint l_run (crc : list N -> N) (L : lstate) (h : list op) : lstate * list ores :=
+  match h with
+  | [] => (L, [])
+  | o :: h' => let '(L1, r) := l_step crc L o in let '(L2, rs) := l_run crc L1 h' in (L2, r :: rs)
+  end.
+
+(* three stages: (1) the reopened volume; (2) after the further operations [post]; (3) stopped
+   again -- the data file whole, the index file short of its last [drop2] bytes -- and reopened *)
 Record obs := {
   o_load : N;                        (* 0 loaded, 1 not loaded (2 = run-time panic: never in the model) *)
   o_readonly : bool;
   o_dat_len : N;                     (* bytes of the .dat on disk after the load *)
   o_idx_len : N;                     (* bytes of the .idx on disk after the load *)
   o_reads : list (N * N * list N);   (* one per probed key *)
-  o_write : N;                       (* the fresh write *)
-  o_fresh : N * N * list N;          (* read of the fresh key *)
-  o_dat_len2 : N;                    (* sizes on disk after the fresh write *)
-  o_idx_len2 : N
+  o_post : list (N * Z);             (* the answer to every further operation *)
+  o_reads2 : list (N * N * list N);  (* the probed keys after them *)
+  o_dat_len2 : N;                    (* sizes on disk after them *)
+  o_idx_len2 : N;
+  o_load3 : N;                       (* the second reopen *)
+  o_readonly3 : bool;
+  o_reads3 : list (N * N * list N);
+  o_dat_len3 : N;
+  o_idx_len3 : N
 }.
 
-Definition observe (crc : list N -> N) (f : files) (keys : list N) (fresh : needle) : obs :=
+Definition observe (crc : list N -> N) (f : files) (keys : list N) (post : list op) (drop2 : N) : obs :=
   match load crc f with
   | LNotLoaded => {| o_load := 1; o_readonly := false; o_dat_len := 0; o_idx_len := 0; o_reads := [];
-                     o_write := 0; o_fresh := (0, 0, []); o_dat_len2 := 0; o_idx_len2 := 0 |}
+                     o_post := []; o_reads2 := []; o_dat_len2 := 0; o_idx_len2 := 0;
+                     o_load3 := 1; o_readonly3 := false; o_reads3 := []; o_dat_len3 := 0; o_idx_len3 := 0 |}
   | Loaded L =>
-      let '(L2, w) := l_write crc L fresh in
+      let '(L2, rs) := l_run crc L post in
+      let dat2 := d_bytes (l_dat L2) in
+      let ilen2 := NeedleMapEntrySize * len (l_idx L2) in
+      let l3 := load crc (cut_files dat2 (l_idx L2) (len dat2) (ilen2 - drop2)) in
       {| o_load := 0; o_readonly := l_nwod L;
          o_dat_len := len (d_bytes (l_dat L)); o_idx_len := NeedleMapEntrySize * len (l_idx L);
          o_reads := map (fun k => rres_proj (l_read crc L k)) keys;
-         o_write := wres_code w;
-         o_fresh := rres_proj (l_read crc L2 (id fresh));
-         o_dat_len2 := len (d_bytes (l_dat L2)); o_idx_len2 := NeedleMapEntrySize * len (l_idx L2) |}
+         o_post := map ores_code rs;
+         o_reads2 := map (fun k => rres_proj (l_read crc L2 k)) keys;
+         o_dat_len2 := len dat2; o_idx_len2 := ilen2;
+         o_load3 := match l3 with Loaded _ => 0 | LNotLoaded => 1 end;
+         o_readonly3 := match l3 with Loaded L3 => l_nwod L3 | LNotLoaded => false end;
+         o_reads3 := match l3 with Loaded L3 => map (fun k => rres_proj (l_read crc L3 k)) keys | LNotLoaded => [] end;
+         o_dat_len3 := match l3 with Loaded L3 => len (d_bytes (l_dat L3)) | LNotLoaded => 0 end;
+         o_idx_len3 := match l3 with Loaded L3 => NeedleMapEntrySize * len (l_idx L3) | LNotLoaded => 0 end |}
   end.
 
 (* ---------- admissible crash points and the triggers of the known findings ---------- *)
@@ -502,3 +606,19 @@ Definition tombstone_tail (st : pstate) (dcut icut : N) : bool :=
          end
   end.
 Definition torn_index (icut : N) : bool := negb (icut mod NeedleMapEntrySize =? 0).
+
+(* finding 0 (c03-empty-blob-gone-after-restart): a blob with an empty payload is stored as a record
+   of Size 0 and an index entry of size 0; the running volume answers (0, nil) for it, but replaying
+   the index treats a size-0 entry as a deletion, so after ANY restart the key is unknown (or
+   deleted, when an older version existed) and its cookie is forgotten.  Triggers: the key is bound
+   to an empty blob when the volume stops (state level); the history writes an empty payload under
+   the key (history level, per key); the history writes an empty payload at all. *)
+Definition is_nil {A} (l : list A) : bool := match l with [] => true | _ => false end.
+Definition empty_bound (o : option nval) : bool :=
+  match o with Some pv => (nv_size pv =? 0)%Z | None => false end.
+Definition empty_live (st : pstate) (k : N) : bool := empty_bound (nm_get (p_map st) k).
+Definition empty_write_of (k : N) (o : op) : bool :=
+  match o with Write n => (id n =? k) && is_nil (data n) | Delete _ _ _ => false end.
+Definition key_has_empty_write (h : list op) (k : N) : bool := existsb (empty_write_of k) h.
+Definition has_empty_write (h : list op) : bool :=
+  existsb (fun o => match o with Write n => is_nil (data n) | Delete _ _ _ => false end) h.
